@@ -305,19 +305,18 @@ func forall(lo, hi int, f func(int) bool) bool {
 //@     invariant len(values) == len(sm.list) && forall(0, idx_, func(j int) bool { return same(values[j], sm.m[sm.list[j]]) })
 
 // ---- binary heap (C19, C10). The heap order: every parent compares <= each of its children.
-// hpOrd(h, x): the order holds for every parent/child pair whose CHILD is not x (x = -1: all
-// pairs); hpSkip(h, x): it holds for every pair in which x is neither parent nor child;
-// hpGrand(h, x): the parent of x compares <= the children of x (so x can be lifted out).
-// compare is required to be a total preorder (as every comparator the engine passes is).
-//@ define hpChild(h, p, c) := (c < len(h.data) ==> h.compare(h.data[p], h.data[c]) <= 0)
-//@ define hpOrd(h, x) := forall(func(pp_ int) bool { return 0 <= pp_ ==> (2*pp_+1 != x ==> hpChild(h, pp_, 2*pp_+1)) && (2*pp_+2 != x ==> hpChild(h, pp_, 2*pp_+2)) })
-//@ define hpSkip(h, x) := forall(func(pp_ int) bool { return 0 <= pp_ && pp_ != x ==> (2*pp_+1 != x ==> hpChild(h, pp_, 2*pp_+1)) && (2*pp_+2 != x ==> hpChild(h, pp_, 2*pp_+2)) })
-//@ define hpGrand(h, x) := (x > 0 ==> hpChild(h, (x-1)/2, 2*x+1) && hpChild(h, (x-1)/2, 2*x+2))
-//@ define hpLeq(h, x) := hpChild(h, x, 2*x+1) && hpChild(h, x, 2*x+2)
-//@ define hpCmp(h) := forall(func(a T) bool { return h.compare(a, a) == 0 }) &&
-//@        forall(func(a T, b T, c T) bool { return h.compare(a, b) <= 0 && h.compare(b, c) <= 0 ==> h.compare(a, c) <= 0 }) &&
-//@        forall(func(a T, b T) bool { return h.compare(a, b) >= 0 ==> h.compare(b, a) <= 0 }) &&
-//@        forall(func(a T, b T) bool { return h.compare(a, b) < 0 ==> h.compare(b, a) >= 0 })
+// compare is required to be a sign-consistent total preorder, stated through its embedding into the
+// reals: sign(compare(a, b)) == sign(hpRank(a) - hpRank(b)) (builtin rankof, see DESIGN 12.1).
+// The order predicates quantify over (parent, child) index PAIRS so that an instance never creates
+// a new array term (a one-variable "data[p] <= data[2p+1]" feeds itself):
+//   hpPairs(h, xp, xc): the order holds for every pair whose parent is not xp and whose child is not xc
+//   (-1: no exclusion); hpGrand(h, x): the parent of x is <= the children of x (x can be lifted out).
+//@ define hpRank(h, v) := rankof(h.compare, v)
+//@ define hpCmp(h) := forall(func(a T, b T) bool { return ((h.compare(a, b) <= 0) == (hpRank(h, a) <= hpRank(h, b))) && ((h.compare(a, b) >= 0) == (hpRank(h, a) >= hpRank(h, b))) })
+//@ define hpLe(h, p, c) := (c < len(h.data) ==> hpRank(h, h.data[p]) <= hpRank(h, h.data[c]))
+//@ define hpPairs(h, xp, xc) := forall(func(pp_ int, cc_ int) bool { return 0 <= pp_ && pp_ != xp && cc_ != xc && (cc_ == 2*pp_+1 || cc_ == 2*pp_+2) && cc_ < len(h.data) ==> hpRank(h, h.data[pp_]) <= hpRank(h, h.data[cc_]) })
+//@ define hpGrand(h, x) := (x > 0 ==> hpLe(h, (x-1)/2, 2*x+1) && hpLe(h, (x-1)/2, 2*x+2))
+//@ define hpLeq(h, x) := hpLe(h, x, 2*x+1) && hpLe(h, x, 2*x+2)
 
 //@ func Heap.swap
 //@   property C19 C10
@@ -329,24 +328,88 @@ func forall(lo, hi int, f func(int) bool) bool {
 // up(i): the only pair that may be out of order is (parent(i), i); afterwards the heap order holds.
 //@ func Heap.up
 //@   property C19 C10
-//@   requires 0 <= i && i < len(h.data) && hpCmp(h) && hpOrd(h, i) && hpGrand(h, i)
+//@   requires 0 <= i && i < len(h.data) && hpCmp(h) && hpPairs(h, -1, i) && hpGrand(h, i)
 //@   modifies h.data
-//@   ensures len(h.data) == old(len(h.data)) && hpOrd(h, -1)
+//@   ensures len(h.data) == old(len(h.data)) && hpPairs(h, -1, -1)
 //@   loop 0:
-//@     invariant 0 <= i && i < len(h.data) && len(h.data) == old(len(h.data)) && hpOrd(h, i) && hpGrand(h, i)
+//@     invariant 0 <= i && i < len(h.data) && len(h.data) == old(len(h.data)) && hpPairs(h, -1, i) && hpGrand(h, i)
 
 // down(i): the only pairs that may be out of order are (i, children of i) and (parent(i), i); it
 // reports whether the element moved. If it moved the heap order holds everywhere; if it did not,
 // nothing changed and the element is <= its children already (Fix then calls up).
-//@ define hpPar(h, x) := forall(func(pp_ int) bool { return 0 <= pp_ && pp_ != x ==> hpChild(h, pp_, 2*pp_+1) && hpChild(h, pp_, 2*pp_+2) })
 //@ func Heap.down
 //@   property C19 C10
-//@   requires 0 <= i && i < len(h.data) && hpCmp(h) && hpSkip(h, i) && hpGrand(h, i)
+//@   requires 0 <= i && i < len(h.data) && hpCmp(h) && hpPairs(h, i, i) && hpGrand(h, i)
 //@   modifies h.data
 //@   ensures len(h.data) == old(len(h.data))
-//@   ensures result ==> hpPar(h, -1)
+//@   ensures result ==> hpPairs(h, -1, -1)
 //@   ensures !result ==> same(h.data, old(h.data)) && hpLeq(h, i)
 //@   loop 0:
 //@     invariant i0 <= i && i < len(h.data) && len(h.data) == old(len(h.data)) && hpGrand(h, i)
-//@     invariant i == i0 ==> same(h.data, old(h.data)) && hpSkip(h, i)
-//@     invariant i > i0 ==> hpPar(h, i)
+//@     invariant i == i0 ==> same(h.data, old(h.data)) && hpPairs(h, i, i)
+//@     invariant i > i0 ==> hpPairs(h, i, -1)
+
+// ghostRootMin: a lemma proved as code. In a heap-ordered array the root is <= every element:
+// by induction on the index (the loop), since the parent (k-1)/2 of k is a smaller index.
+func (h *Heap[T]) ghostRootMin() {
+	for k := 1; k < len(h.data); k++ {
+	}
+}
+
+//@ func Heap.ghostRootMin
+//@   property C19 C10
+//@   requires hpCmp(h) && hpPairs(h, -1, -1)
+//@   modifies nothing
+//@   ensures forall(0, len(h.data), func(j int) bool { return hpRank(h, h.data[0]) <= hpRank(h, h.data[j]) })
+//@   loop 0:
+//@     invariant 1 <= k && forall(0, k, func(j int) bool { return j < len(h.data) ==> hpRank(h, h.data[0]) <= hpRank(h, h.data[j]) })
+//@     invariant k < len(h.data) ==> hpRank(h, h.data[(k-1)/2]) <= hpRank(h, h.data[k])
+
+//@ func NewHeap
+//@   property C19 C10
+//@   ensures result != nil && len(result.data) == 0
+
+//@ func Heap.Size
+//@   property C19 C10
+//@   modifies nothing
+//@   ensures result == len(h.data)
+
+//@ func Heap.IsEmpty
+//@   property C19 C10
+//@   modifies nothing
+//@   ensures result == (len(h.data) == 0)
+
+// Peek: the root, which is a minimum of the heap.
+//@ func Heap.Peek
+//@   property C19 C10
+//@   requires hpCmp(h) && hpPairs(h, -1, -1)
+//@   apply h.ghostRootMin()
+//@   modifies nothing
+//@   ensures result1 == (len(h.data) > 0)
+//@   ensures result1 ==> result0 == h.data[0] && forall(0, len(h.data), func(j int) bool { return hpRank(h, result0) <= hpRank(h, h.data[j]) })
+
+// Push: one element more, heap order kept.
+//@ func Heap.Push
+//@   property C19 C10
+//@   requires hpCmp(h) && hpPairs(h, -1, -1)
+//@   modifies h.data
+//@   ensures len(h.data) == old(len(h.data)) + 1 && hpPairs(h, -1, -1)
+
+// Pop: removes and returns the root - a minimum of what the heap held; heap order kept.
+//@ func Heap.Pop
+//@   property C19 C10
+//@   requires hpCmp(h) && hpPairs(h, -1, -1)
+//@   apply h.ghostRootMin()
+//@   modifies h.data
+//@   ensures result1 == (old(len(h.data)) > 0)
+//@   ensures !result1 ==> len(h.data) == 0
+//@   ensures result1 ==> result0 == old(h.data[0]) && len(h.data) == old(len(h.data)) - 1 && hpPairs(h, -1, -1) &&
+//@           forall(0, old(len(h.data)), func(j int) bool { return hpRank(h, result0) <= hpRank(h, old(h.data)[j]) })
+
+// Fix(i): after the key of element i changed (nothing else did), the heap order is restored.
+//@ func Heap.Fix
+//@   property C19 C10
+//@   requires i == -1 || (0 <= i && i < len(h.data))
+//@   requires hpCmp(h) && (i == -1 ==> hpPairs(h, -1, -1)) && (i >= 0 ==> hpPairs(h, i, i) && hpGrand(h, i))
+//@   modifies h.data
+//@   ensures len(h.data) == old(len(h.data)) && hpPairs(h, -1, -1)
